@@ -165,6 +165,17 @@ CURATED = [
      'LOOP WHILE / UNTIL with a string constant (`LOOP WHILE "s"`): the NOT emitted for the '
      'condition is evaluated by the peephole pass: EvalError at -O2',
      'DO\nLOOP WHILE "s"', None, None),
+    ('input-separator-without-prompt',
+     [IE + r'AssertionError,qbee/node\.py:Node\.children,assert-all\)'],
+     'INPUT with a separator but no prompt string (`INPUT , x`, `INPUT ; ; x`): the grammar makes '
+     'the prompt optional inside the (prompt separator) group, the separator lands in the variable '
+     'list: AssertionError in Node.children',
+     'INPUT , x', 'C06-input-separator-without-prompt.diff', None),
+    ('exp-folded-to-non-real-or-float',
+     [IE + r'TypeError,qbee/expr\.py:BinaryOp\._eval_numeric\.limit,.*\)'],
+     'constant ^ whose result is complex or a float in an integral type (`y% = (-1) ^ .5`, '
+     '`x = 2 ^ (-1)`): TypeError in the folder\'s range check at -O1/-O2 (and for CONST at every level)',
+     'y% = (-1) ^ .5', None, None),
     ('nesting-depth-recursion',
      [IE + r'RecursionError,.*\)'],
      'expression nesting of about 10 levels (parentheses, calls, indices) exhausts the Python '
